@@ -340,7 +340,6 @@ harnesses! {
     c07_extend_ref: [1, 2] [2, 3] [3, 3];
     @deep
     c07u_ops: [10] [12];
-    c07w_ops: [34, 33] [34, 32] [66, 66] [72, 65] [72, 64];
     c07_insert: [4] [5];
     c07_replace: [4] [5];
     c07_lookup: [4] [5];
